@@ -213,4 +213,97 @@ theorem setBufCopy_spec {p : Pool} (hI : Inv p) (hF : p.failAt = none) {o b : Na
     obtain ⟨p', h1, s1, q1, f1, v1⟩ := setSubst_spec hI hF ho hb hC hoC
     exact ⟨p', by simpa [setBufCopy] using h1, s1, q1, f1, by simpa [setVal] using v1⟩
 
+
+/-! ### a value built in a temporary and moved into the target -/
+
+theorem assignFromTemp_spec {p : Pool} (hI : Inv p) (hF : p.failAt = none) {o t : Nat} {bo : Buf}
+    (ho : p.objs o = some bo) (ht : p.objs t = none) (hot : o ≠ t) (val : List Nat) :
+    ∃ p', (do fresh t val; withTemp t (assignMove o t)) p = .ok () p' ∧
+      Succ p p' (fun x => x = o ∨ x = t) ∧ p'.objs t = none ∧ p'.failAt = none ∧ view p' o = some (val.length, val) := by
+  obtain ⟨p1, h1, s1, q1, f1⟩ := fresh_spec hI hF ht val
+  have ho1 : p1.objs o = some bo := by rw [s1.objs o hot]; exact ho
+  obtain ⟨bc, hbc⟩ := alive_of_view q1
+  obtain ⟨p2, h2, s2, ⟨q2a, q2b⟩, f2⟩ := step s1.inv f1 (.assignMove o t) ⟨⟨bo, ho1⟩, bc, hbc⟩
+  have hC2 : ∃ b, p2.objs t = some b := by
+    rw [view_of_alive ho1] at q2b; exact alive_of_view q2b
+  obtain ⟨p3, h3, s3, q3, f3⟩ := dtor_step s2.inv f2 hC2
+  refine ⟨p3, ?_, ?_, q3, f3, ?_⟩
+  · simp only [Op.run] at h2
+    have hw : withTemp t (assignMove o t) p1 = .ok () p3 := withTemp_ok h2 h3
+    simp [h1, hw]
+  · exact Succ.trans' (Succ.trans' s1 s2 (fun x h => Or.inr h) (fun x h => h)) s3 (fun x h => h) (fun x h => Or.inr h)
+  · rw [s3.view o (by simpa using hot), q2a, q1]
+
+/-! ### `_set_utf8`, constructors -/
+
+theorem units_of_view {p : Pool} {o : Nat} {b : Buf} {n : Nat} {us : List Nat} (hb : p.objs o = some b)
+    (h : view p o = some (n, us)) : units p b = us := by
+  simp [view, hb] at h; exact h.2
+
+theorem tmpA_ne_tmpC : tmpA ≠ tmpC := by decide
+theorem tmpC_ne_tmpA : tmpC ≠ tmpA := by decide
+
+theorem setUtf8_spec {p : Pool} (hI : Inv p) (hF : p.failAt = none) {o : Nat} {bo : Buf}
+    (ho : p.objs o = some bo) (hA : p.objs tmpA = none) (hC : p.objs tmpC = none) (hoA : o ≠ tmpA) (hoC : o ≠ tmpC)
+    (us : List Nat) (m : Mode) :
+    (¬ setThrows m us ∧ ∃ p', setUtf8 o us m p = .ok () p' ∧ Succ p p' (fun x => x = o ∨ x = tmpA ∨ x = tmpC) ∧
+        p'.objs tmpA = none ∧ p'.objs tmpC = none ∧ p'.failAt = none ∧ view p' o = some ((setVal m us).length, setVal m us)) ∨
+    (setThrows m us ∧ ∃ p', setUtf8 o us m p = .throw .unicodeError p' ∧ Succ p p' (· = tmpA) ∧
+        p'.objs tmpA = none ∧ p'.failAt = none) := by
+  obtain ⟨p1, h1, s1, q1, f1⟩ := step hI hF (.ctorUnits tmpA us) hA
+  simp only [Op.run] at h1
+  obtain ⟨bA, hbA⟩ := alive_of_view q1
+  have hu : units p1 bA = us := units_of_view hbA q1
+  have ho1 : p1.objs o = some bo := by rw [s1.objs o hoA]; exact ho
+  have hC1 : p1.objs tmpC = none := by rw [s1.objs tmpC tmpC_ne_tmpA]; exact hC
+  rcases setBufMove_spec s1.inv f1 ho1 hbA hC1 hoC m with ⟨hn, p2, h2, s2, c2, f2, v2, w2⟩ | ⟨ht, h2⟩
+  · left
+    rw [hu] at hn v2
+    refine ⟨hn, ?_⟩
+    obtain ⟨p3, h3, s3, q3, f3⟩ := dtor_step s2.inv f2 (by obtain ⟨w, hw⟩ := w2 tmpA_ne_tmpC; exact alive_of_view hw)
+    refine ⟨p3, ?_, ?_, q3, ?_, f3, ?_⟩
+    · have hw : withTemp tmpA (setBufMove o tmpA m) p1 = .ok () p3 := withTemp_ok h2 h3
+      simp [setUtf8, h1, hw]
+    · exact Succ.trans' (Succ.trans' s1 s2 (fun x h => Or.inr (Or.inl h)) (fun x h => h)) s3 (fun x h => h) (fun x h => Or.inr (Or.inl h))
+    · rw [s3.objs tmpC tmpC_ne_tmpA]; exact c2
+    · rw [s3.view o (by simpa using hoA)]; exact v2
+  · right
+    rw [hu] at ht
+    refine ⟨ht, ?_⟩
+    obtain ⟨p3, h3, s3, q3, f3⟩ := dtor_step s1.inv f1 ⟨bA, hbA⟩
+    refine ⟨p3, ?_, s1.trans s3, q3, f3⟩
+    have hw : withTemp tmpA (setBufMove o tmpA m) p1 = .throw .unicodeError p3 := withTemp_throw h2 h3
+    simp [setUtf8, h1, hw]
+
+theorem ctorThen_ok {o : Nat} {body : M Unit} {p p1 p2 : Pool} (h1 : ctorDefault o p = .ok () p1)
+    (h2 : body p1 = .ok () p2) : ctorThen o body p = .ok () p2 := by
+  simp [ctorThen, h1, h2]
+
+theorem ctorThen_throw {o : Nat} {body : M Unit} {p p1 p2 p3 : Pool} {e : Exc} (h1 : ctorDefault o p = .ok () p1)
+    (h2 : body p1 = .throw e p2) (h3 : dtor o p2 = .ok () p3) : ctorThen o body p = .throw e p3 := by
+  simp [ctorThen, h1, h2, h3]
+
+/-- `ST::string(const char *, size, validation)` into the dead id `o` -/
+theorem ctorText_spec {p : Pool} (hI : Inv p) (hF : p.failAt = none) {o : Nat}
+    (ho : p.objs o = none) (hA : p.objs tmpA = none) (hC : p.objs tmpC = none) (hoA : o ≠ tmpA) (hoC : o ≠ tmpC)
+    (us : List Nat) (m : Mode) :
+    (¬ setThrows m us ∧ ∃ p', ctorText o us m p = .ok () p' ∧ Succ p p' (fun x => x = o ∨ x = tmpA ∨ x = tmpC) ∧
+        p'.objs tmpA = none ∧ p'.objs tmpC = none ∧ p'.failAt = none ∧ view p' o = some ((setVal m us).length, setVal m us)) ∨
+    (setThrows m us ∧ ∃ p', ctorText o us m p = .throw .unicodeError p' ∧ Succ p p' (fun x => x = o ∨ x = tmpA) ∧
+        p'.objs o = none ∧ p'.objs tmpA = none ∧ p'.failAt = none) := by
+  obtain ⟨p1, h1, s1, q1, f1⟩ := step hI hF (.ctorDefault o) ho
+  simp only [Op.run] at h1
+  obtain ⟨bo, hbo⟩ := alive_of_view q1
+  have hA1 : p1.objs tmpA = none := by rw [s1.objs tmpA (fun h => hoA h.symm)]; exact hA
+  have hC1 : p1.objs tmpC = none := by rw [s1.objs tmpC (fun h => hoC h.symm)]; exact hC
+  rcases setUtf8_spec s1.inv f1 hbo hA1 hC1 hoA hoC us m with ⟨hn, p2, h2, s2, a2, c2, f2, v2⟩ | ⟨ht, p2, h2, s2, a2, f2⟩
+  · left
+    exact ⟨hn, p2, ctorThen_ok h1 h2, Succ.trans' s1 s2 (fun x h => Or.inl h) (fun x h => h), a2, c2, f2, v2⟩
+  · right
+    have ho2 : p2.objs o = some bo := by rw [s2.objs o hoA]; exact hbo
+    obtain ⟨p3, h3, s3, q3, f3⟩ := dtor_step s2.inv f2 ⟨bo, ho2⟩
+    refine ⟨ht, p3, ctorThen_throw h1 h2 h3, ?_, q3, ?_, f3⟩
+    · exact Succ.trans' (Succ.trans' s1 s2 (fun x h => Or.inl h) (fun x h => Or.inr h)) s3 (fun x h => h) (fun x h => Or.inl h)
+    · rw [s3.objs tmpA (fun h => hoA h.symm)]; exact a2
+
 end StVerif.StrPool
